@@ -60,6 +60,29 @@ def ensure(flavour='prod'):
   return path
 
 
+def ensure_fuzzer():
+  """libFuzzer + ASan + UBSan binary of the current parser source (thorough tier of C06). None if it cannot be built."""
+  os.makedirs(BUILD_DIR, exist_ok=True)
+  path = os.path.join(BUILD_DIR, 'logica_parse_fuzz_%s' % source_hash())
+  if os.path.exists(path):
+    return path
+  target = os.path.join(os.path.dirname(os.path.abspath(__file__)), 'fuzz_target.cc')
+  tmp = path + '.tmp.%d' % os.getpid()
+  cmd = ['clang++', '-std=c++20', '-O1', '-g', '-fsanitize=fuzzer,address,undefined', '-fno-sanitize-recover=undefined',
+         '-DLOGICA_PARSE_LIBRARY', '-o', tmp, target, source_path()]
+  p = subprocess.run(cmd, stdout=subprocess.PIPE, stderr=subprocess.STDOUT, text=True)
+  if p.returncode != 0:
+    return None
+  os.replace(tmp, path)
+  for f in os.listdir(BUILD_DIR):
+    if f.startswith('logica_parse_fuzz_') and os.path.join(BUILD_DIR, f) != path:
+      try:
+        os.remove(os.path.join(BUILD_DIR, f))
+      except OSError:
+        pass
+  return path
+
+
 def install(path):
   """Loads the library and hands it to the repository's bridge (same argtypes as LoadCppParserLib)."""
   repo.setup_path()
